@@ -50,8 +50,8 @@ from gen import g4_sampler as g4
 from specs import sampler_spec as sp
 
 ID = 'C16'
-LEVEL = 'exploration'
-P_TARGETS = []
+LEVEL = 'other'
+P_TARGETS = ['cgsmiles.graph_utils:merge_graphs', 'cgsmiles.cgsmiles_utils:find_complementary_bonding_descriptor', 'cgsmiles.cgsmiles_utils:find_open_bonds']
 BUDGET = {'quick': 30.0, 'thorough': 390.0}
 CHUNK = 100
 N_RANDOM = {'quick': 7000, 'thorough': 200000}
